@@ -582,8 +582,7 @@ def check_g(ctx, facts, tier, seed):
                             break
                         if v is not None:
                             D.clock()
-                            for ck in sorted({c for _, c in vb.clocks()}):
-                                vb.posedge(ck)
+                            vb.posedge({c for _, c in vb.clocks()})
                     if viol:
                         break
         except Nondet:
